@@ -168,6 +168,12 @@ TARGETS = [
                   prelude="let out : List (Nat × Nat) := []", prelude_scope=["out"],
                   exprs={"self.entries.len()": "nEntries", "Ok(())": "out"},
                   serializes={"entry_count": ("entry_count", "EntryCount"), "self.layout": "layoutWrites"})),
+    # ---- the window of an index: which store entry (if any) relative id `id` designates
+    dict(name="rangeGetEntry", group="Search", file="src/reader/directory_pack/range.rs", fn="get_entry",
+         cfg=dict(params=[("off", N), ("count", N), ("rid", N)], ret="Option Nat", paths={"id": "rid"},
+                  self_methods={"count": "count", "offset": "off"},
+                  methods={"is_valid": "(Generated.idxIsValid {recv} {0})", "create_entry": "(some {0})"},
+                  exprs={"Ok(None)": "none"})),
 ]
 
 
@@ -212,7 +218,7 @@ def apply_enums(t):
     return "\n".join(decls)
 
 
-GROUP_IMPORTS = {"Content": ["JubakoModel.Generated.FuncsBytes"], "Dir": ["JubakoModel.Generated.FuncsBytes", "JubakoModel.Model.Bytes"]}
+GROUP_IMPORTS = {"Search": ["JubakoModel.Generated.FuncsBytes"], "Content": ["JubakoModel.Generated.FuncsBytes"], "Dir": ["JubakoModel.Generated.FuncsBytes", "JubakoModel.Model.Bytes"]}
 GROUP_ORDER = ["Bytes", "Content", "Dir", "Search", "View", "Check"]
 
 
